@@ -155,14 +155,18 @@ type vdrRun struct {
 	nFileLaunch int
 	reloc       *vdrReloc
 	knownForks  map[string]bool
+	bindEnc     map[string]map[string]vdrNodeBinding
+	nReach      int
 }
 
 type vdrSnapshot struct {
-	Tree    map[string]vdrEnt
-	Forks   []core.VerifVdrFork
-	Nodes   map[string]core.MetadataState
-	Reports map[string]json.RawMessage // relative path of _vdrkill / _vdrkill.partial -> content
-	Outs    map[string]json.RawMessage // fork path (relative) -> _outs
+	Tree  map[string]vdrEnt
+	Forks []core.VerifVdrFork
+	// forks below a relocated (linked) sub-pipeline directory
+	RelocForks []core.VerifVdrFork
+	Nodes      map[string]core.MetadataState
+	Reports    map[string]json.RawMessage // relative path of _vdrkill / _vdrkill.partial -> content
+	Outs       map[string]json.RawMessage // fork path (relative) -> _outs
 }
 
 func (v *vdrRun) hist(k string) {
@@ -284,10 +288,12 @@ func (v *vdrRun) snapshot(full bool) *vdrSnapshot {
 	if full && v.r.ps != nil {
 		s.Forks = v.r.ps.VerifVdrView()
 		if v.reloc != nil {
-			kept := s.Forks[:0]
+			var kept []core.VerifVdrFork
 			for _, f := range s.Forks {
 				if !v.underReloc(v.rel(f.Path)) {
 					kept = append(kept, f)
+				} else {
+					s.RelocForks = append(s.RelocForks, f)
 				}
 			}
 			s.Forks = kept
@@ -491,7 +497,11 @@ func (v *vdrRun) outsHook(job *TAJob, outs map[string]interface{}) {
 		}
 		switch {
 		case p.Tname.Tname == syntax.KindString && p.Tname.ArrayDim == 0 && p.Tname.MapDim == 0:
-			switch rng.Intn(8) {
+			shape := rng.Intn(8)
+			if shape == 3 { // (more weight on the outputs that go through links)
+				shape = []int{7, 5, 4}[rng.Intn(3)]
+			}
+			switch shape {
 			case 7: // the data is in files/data_x, files/current_x -> data_x, the output goes through the link
 				real := path.Join(job.FilesPath, "data_"+p.Id, "part.txt")
 				lnk := path.Join(job.FilesPath, "current_"+p.Id)
@@ -631,6 +641,7 @@ func (v *vdrRun) launchHook(job *TAJob) {
 			v.hist("chunk-failure-injected")
 		}
 	}
+	v.deliveryCheck(job)
 	ps := pathsInJSON(job.Args, v.psdir)
 	rels := make([]string, 0, len(ps))
 	for _, p := range ps {
@@ -888,6 +899,9 @@ func (v *vdrRun) loop() {
 			r.ps.VerifStorageBarrier()
 			v.checkOutside("C14:outside-touched", "by volatile data removal")
 			v.postKill = v.snapshot(true)
+			if v.reloc != nil {
+				v.reloc.treeAtKill = v.relocTree()
+			}
 			v.unwatchRelocated()
 			r.ps.PostProcess()
 			v.checkOutside("C14:outside-touched-by-postprocess", "by post-processing")
